@@ -163,6 +163,7 @@ fn find_named_item<'a>(items: &'a [syn::Item], name: &str) -> Option<&'a syn::It
 // lowering
 
 struct Lower<'a> {
+    drop_generics: Vec<String>,
     rules: Vec<&'a Rule>,
     counts: Vec<usize>,
     notes: BTreeMap<String, usize>,
@@ -214,8 +215,8 @@ impl<'a> Lower<'a> {
                     .parse_body_with(syn::punctuated::Punctuated::<Expr, syn::Token![,]>::parse_terminated)
                     .ok()?;
                 let c = args.first()?.clone();
-                self.note("R11 assert!/debug_assert! -> assert()");
-                Some(syn::parse_quote!(assert(#c)))
+                self.note("R11 assert!/debug_assert! -> if !(c) { vpanic() } with vpanic requires false");
+                Some(syn::parse_quote!(if !(#c) { vpanic(); }))
             }
             "assert_eq" | "debug_assert_eq" => {
                 let args = m
@@ -224,8 +225,8 @@ impl<'a> Lower<'a> {
                 let mut it = args.iter();
                 let a = it.next()?.clone();
                 let b = it.next()?.clone();
-                self.note("R11 assert_eq! -> assert(a == b)");
-                Some(syn::parse_quote!(assert((#a) == (#b))))
+                self.note("R11 assert_eq! -> if !(a == b) { vpanic() } with vpanic requires false");
+                Some(syn::parse_quote!(if !((#a) == (#b)) { vpanic(); }))
             }
             "matches" => {
                 let ts = m.tokens.clone();
@@ -361,8 +362,42 @@ impl<'a> VisitMut for Lower<'a> {
         if let Expr::Async(_) = e {
             die("unsupported construct: async block in target");
         }
+        // rules are tried on the node as written (so that larger patterns win), then on the
+        // node again after its children have been lowered
+        self.apply_expr_rules(e);
         visit_mut::visit_expr_mut(self, e);
         self.apply_expr_rules(e);
+    }
+
+    fn visit_path_mut(&mut self, p: &mut syn::Path) {
+        // a dropped generic parameter also disappears from every argument list
+        for seg in p.segments.iter_mut() {
+            let mut now_empty = false;
+            if let syn::PathArguments::AngleBracketed(ab) = &mut seg.arguments {
+                let kept: Vec<syn::GenericArgument> = ab
+                    .args
+                    .iter()
+                    .filter(|a| match a {
+                        syn::GenericArgument::Type(syn::Type::Path(tp)) => {
+                            !(tp.qself.is_none()
+                                && tp.path.segments.len() == 1
+                                && tp.path.segments[0].arguments.is_none()
+                                && self.drop_generics.contains(&tp.path.segments[0].ident.to_string()))
+                        }
+                        _ => true,
+                    })
+                    .cloned()
+                    .collect();
+                if kept.len() != ab.args.len() {
+                    ab.args = kept.into_iter().collect();
+                    now_empty = ab.args.is_empty();
+                }
+            }
+            if now_empty {
+                seg.arguments = syn::PathArguments::None;
+            }
+        }
+        visit_mut::visit_path_mut(self, p);
     }
 
     fn visit_type_mut(&mut self, t: &mut syn::Type) {
@@ -796,13 +831,13 @@ fn emit_target(ctx: &mut Ctx, unit: &Unit, t: &Target) -> Emitted {
     rules.extend(t.rules.iter());
     rules.extend(unit.rules.iter());
     let n_rules = rules.len();
-    let mut lw = Lower { rules, counts: vec![0; n_rules], notes: BTreeMap::new() };
+    let mut drop_g = unit.drop_generics.clone();
+    drop_g.extend(t.drop_generics.iter().cloned());
+    let mut lw = Lower { drop_generics: drop_g.clone(), rules, counts: vec![0; n_rules], notes: BTreeMap::new() };
     lw.visit_block_mut(&mut block);
     if sig.asyncness.is_some() {
         lw.note("R1 async fn -> fn");
     }
-    let mut drop_g = unit.drop_generics.clone();
-    drop_g.extend(t.drop_generics.iter().cloned());
     strip_vis_and_attrs_sig(&mut sig, &drop_g, t.keep_where);
     lw.visit_signature_mut(&mut sig);
     if let Some(r) = &t.rename {
@@ -974,7 +1009,7 @@ fn count_stmts(b: &Block) -> usize {
     b.stmts.iter().map(count_stmt).sum()
 }
 
-fn emit_struct(ctx: &mut Ctx, unit: &Unit, file: &str, name: &str) -> (String, serde_json::Value) {
+fn emit_struct(ctx: &mut Ctx, unit: &Unit, file: &str, name: &str, rename: Option<&String>) -> (String, serde_json::Value) {
     let f = ctx.file(file).clone();
     let it = match find_named_item(&f.items, name) {
         Some(i) => i.clone(),
@@ -982,7 +1017,7 @@ fn emit_struct(ctx: &mut Ctx, unit: &Unit, file: &str, name: &str) -> (String, s
     };
     let rules: Vec<&Rule> = unit.rules.iter().collect();
     let n = rules.len();
-    let mut lw = Lower { rules, counts: vec![0; n], notes: BTreeMap::new() };
+    let mut lw = Lower { drop_generics: unit.drop_generics.clone(), rules, counts: vec![0; n], notes: BTreeMap::new() };
     let line = it.span().start().line;
     let pubvis: syn::Visibility = syn::parse_quote!(pub);
     let fix_generics = |g: &mut syn::Generics, drop: &[String]| {
@@ -1011,6 +1046,9 @@ fn emit_struct(ctx: &mut Ctx, unit: &Unit, file: &str, name: &str) -> (String, s
     };
     let text = match it {
         syn::Item::Struct(mut s) => {
+            if let Some(r) = rename {
+                s.ident = syn::Ident::new(r, Span::call_site());
+            }
             s.attrs.clear();
             s.vis = pubvis.clone();
             fix_generics(&mut s.generics, &unit.drop_generics);
@@ -1022,6 +1060,9 @@ fn emit_struct(ctx: &mut Ctx, unit: &Unit, file: &str, name: &str) -> (String, s
             print_plain(s.to_token_stream())
         }
         syn::Item::Enum(mut s) => {
+            if let Some(r) = rename {
+                s.ident = syn::Ident::new(r, Span::call_site());
+            }
             s.attrs.clear();
             s.vis = pubvis.clone();
             fix_generics(&mut s.generics, &unit.drop_generics);
@@ -1118,14 +1159,14 @@ fn main() {
                 out.push_str(txt.trim_start_matches('\n'));
                 out.push('\n');
             }
-            Item::Struct { file, name, .. } => {
-                let (txt, info) = emit_struct(&mut ctx, &unit, file, name);
+            Item::Struct { file, name, rename } => {
+                let (txt, info) = emit_struct(&mut ctx, &unit, file, name, rename.as_ref());
                 out.push_str(&txt);
                 out.push('\n');
                 items_info.push(info);
             }
             Item::Const { file, name } => {
-                let (txt, info) = emit_struct(&mut ctx, &unit, file, name);
+                let (txt, info) = emit_struct(&mut ctx, &unit, file, name, None);
                 out.push_str(&txt);
                 out.push('\n');
                 items_info.push(info);
